@@ -85,7 +85,8 @@ def generate(ctx):
     return [c for c in cases if c is not None]
 
 def project(c, out):
-    return ' '.join(t for t in out.split(' ') if t != 'SPECDIFF' and not (t.startswith('live=') and c.line.startswith('roundtrip')))
+    # the number of allocation requests a print makes is an internal matter (buffer growth policy), not an observable of C04
+    return ' '.join(t for t in out.split(' ') if t != 'SPECDIFF' and not t.startswith('reqs=') and not (t.startswith('live=') and c.line.startswith('roundtrip')))
 
 def same_value(n, r, path='$'):
     """n: original node, r: re-parsed node; None or a reason"""
